@@ -82,6 +82,10 @@ func (ex *Exec) tryIntrinsic(st *State, fn *ssa.Function, args []Value, depth in
 	if o := fn.Origin(); o != nil {
 		name = o.String()
 	}
+	if name == "(*sync.Pool).Get" || name == "(*sync.Pool).Put" {
+		ex.noteStub(name + " (model: Get returns the most recently Put object, else New())")
+		return ex.syncPool(st, name, args, depth), true
+	}
 	if ex.StubSets["metering"] && meteringStubRe.MatchString(name) {
 		ex.noteStub("stub:" + name)
 		res := fn.Signature.Results()
@@ -275,6 +279,10 @@ func (ex *Exec) shimIntrinsic(st *State, fn *ssa.Function, args []Value, depth i
 					s.KF = id
 				}
 				return []Value{True()}
+			}
+			// a later call with the same id outside the region ends it
+			if s.KF == id {
+				s.KF = ""
 			}
 			return []Value{False()}
 		}), true
